@@ -166,7 +166,7 @@ def build_lib(flavour):
         shutil.rmtree(objdir, ignore_errors=True)
         open(done, "w").close()
         log("library flavour %s built in %.1fs (%s)" % (flavour, time.time() - t0, dig))
-        _gc(parent, 2)
+        _gc(parent, 4)
     return out
 
 
@@ -197,7 +197,7 @@ def _common_objs(flavour):
             list(ex.map(comp, srcs))
         open(done, "w").close()
         log("common objects (%s) built in %.1fs" % (flavour, time.time() - t0))
-        _gc(parent, 2)
+        _gc(parent, 4)
     return out
 
 
